@@ -896,3 +896,37 @@ func (p *Program) usedEdges(ph *ssa.Phi) []bool {
 	p.ueMu.Unlock()
 	return res
 }
+
+// nonNilAt: v cannot be nil when control is in block b: never nil at all, or a
+// dominating (threaded) guard has tested it against nil.
+func (p *Program) nonNilAt(v ssa.Value, b *ssa.BasicBlock) bool {
+	if p.definitelyNonNil(v, 0) {
+		return true
+	}
+	vals := map[ssa.Value]bool{v: true, stripConv(v): true}
+	for _, g := range p.guardsAt(b) {
+		c, pol := g.Cond, g.Pol
+		for {
+			if u, ok := c.(*ssa.UnOp); ok && u.Op == token.NOT {
+				c, pol = u.X, !pol
+				continue
+			}
+			break
+		}
+		bo, ok := c.(*ssa.BinOp)
+		if !ok || (bo.Op != token.EQL && bo.Op != token.NEQ) {
+			continue
+		}
+		x, y := bo.X, bo.Y
+		if isNilConst(x) {
+			x, y = y, x
+		}
+		if !isNilConst(y) || !(vals[x] || vals[stripConv(x)]) {
+			continue
+		}
+		if (bo.Op == token.NEQ) == pol {
+			return true
+		}
+	}
+	return false
+}
